@@ -11,7 +11,7 @@ let geti k d l = int_of_string (get k (string_of_int d) l)
 
 (* Allocation script shared with the harness (harness/hx-round/src/main.rs `asize`):
    call k of thread t in round r allocates one block of this many bytes. *)
-let asize t r k = 1000 * (t + 1) + 16 * r + k + 1
+let asize t r k = 64 * (t + 1) + 8 * r + k + 1
 
 type case = { t : int; r : int; n : int; dout : bool; din : bool; grd : bool; faults : (int * int * int) list }
 
@@ -47,7 +47,7 @@ let config_of ?(fault_all = None) (c : case) : config =
       if p >= c.n + 4 && p < 2 * c.n + 4
       then [Alloc (n_of_small (asize (int_of_nat i) (int_of_nat r) (p - c.n - 4)))]
       else if p < c.n then [Alloc (n_of_small 7777); Dealloc (n_of_small 7777)]   (* generator noise *)
-      else [Dealloc (n_of_small (asize (int_of_nat i) (int_of_nat r) 0))]) }      (* drops free *)
+      else [Alloc (n_of_small 3333); Dealloc (n_of_small 3333)]) }                (* drop noise *)
 
 (* ---- exhaustive exploration ------------------------------------------------
    The union of the transitions under the two constant fault functions is the
@@ -149,8 +149,13 @@ let run line =
   let logpart =
     if acc < List.length toks_ then accepted ^ (if acc > 0 then " " else "") ^ Printf.sprintf "REJECT@%d" acc
     else accepted in
+  let nd1 = (if c.dout then 1 else 0) + (if c.din then 1 else 0) in
+  let spec_ok = log_sb (nat_of_int c.t) (nat_of_int c.n) (nat_of_int (c.n * nd1)) log in
   let outcome =
     match st.gp with
+    | GEnd _ when acc = List.length toks_ && not spec_ok ->
+      (* a log accepted by [step] must satisfy the trace-level specification *)
+      "driver-error accepted-log-violates-log_sb"
     | GEnd o when acc = List.length toks_ ->
       let o' = match exp with None -> None | Some (_, k) -> Some k in
       if o = o' then outcome_s exp else "driver-error expected-differs-from-replay"
